@@ -26,7 +26,7 @@ echo "patched exit=$patched"
 } > $log 2>&1
 nontest=$(grep '^+++ ' $src/patch.diff | grep -c '_test.go')
 if [ $clean -eq 0 ] && [ $ap -eq 0 ] && [ $tests -eq 0 ] && [ $hb -eq 0 ] && [ $patched -ne 0 ] && [ $nontest -eq 0 ]; then
-  dst=/verif/seeded/$name; rm -rf $dst; mkdir -p $dst
+  dst=${SEED_DST:-/verif/seeded}/$name; rm -rf $dst; mkdir -p $dst
   cp $src/patch.diff $dst/; cp -r $src/demo $dst/ 2>/dev/null; cp $src/run_demo.sh $dst/
   python3 - "$src/meta.json" "$dst/meta.json" "$name" <<'PY'
 import json,sys
